@@ -30,7 +30,7 @@ open Rv.Lru (Bytes FRes)
 
 /-- what travels from the server to the client on the connection -/
 inductive Msg
-  | reply (k c : Bytes) (v : Nat) (vsz raw : Int)   -- EXEC reply of the fetch of (k, c): value = version `v`
+  | reply (k c : Bytes) (v : Nat) (vsz pttl : Int)  -- EXEC reply of the fetch of (k, c): value = version `v`, server PTTL answer
   | fail (k c : Bytes) (err : Nat)                  -- the fetch failed / was aborted
   | push (k : Bytes) (n : Nat)                      -- invalidation of `k`, caused by write number `n` (ghost)
   | pushAll (g : Bytes → Nat)                       -- nil invalidation (flush); ghost: versions after the flush
@@ -56,19 +56,20 @@ def init (mx base : Int) : St :=
 
 inductive Ev
   | start (k c : Bytes) (ttl now : Int)   -- a DoCache call for (k, c)
-  | exec (vsz raw : Int)                  -- the server executes the oldest queued fetch
+  | exec (vsz pttl : Int)                 -- the server executes the oldest queued fetch; `pttl` = its PTTL answer
   | execFail (err : Nat)                  -- … and answers it with an error (abort, MOVED, …)
   | write (k : Bytes)                     -- some client writes `k`
   | flushall
-  | deliver                               -- the reader loop handles the next message of the connection
+  | deliver (now : Int)                   -- the reader loop handles the next message of the connection at clock `now` (ns)
   | disconnect (err : Nat)
 
 def upd {β : Type} (f : Bytes → β) (k : Bytes) (x : β) : Bytes → β := fun k' => if k' = k then x else f k'
 
 /-- what the reader loop does with one message -/
-def handle (st : St) : Msg → St
-  | .reply k c v vsz raw =>
-    { st with store := (Lru.update st.store k c v vsz raw).1, log := st.log ++ [((k, c), v)] }
+def handle (st : St) (now : Int) : Msg → St
+  | .reply k c v vsz pttl =>
+    -- `if pttl >= 0 { cp.setExpireAt(now.Add(pttl ms).UnixMilli()) }; p.cache.Update(ck, cc, cp)`
+    { st with store := (Lru.update st.store k c v vsz (Lru.serverRaw now pttl)).1, log := st.log ++ [((k, c), v)] }
   | .fail k c err => { st with store := Lru.cancel st.store k c err }
   | .push k n => { st with store := Lru.delete st.store (some [k]), floor := upd st.floor k (max (st.floor k) n) }
   | .pushAll g => { st with store := Lru.delete st.store none, floor := fun k => max (st.floor k) (g k) }
@@ -79,11 +80,11 @@ def step (st : St) : Ev → St
     if st.store.closed then st   -- dead pipe: the call fails, nothing is sent
     else if r.2 = .send then { st with store := r.1, reqQ := st.reqQ ++ [(k, c)] }
     else { st with store := r.1 }
-  | .exec vsz raw =>
+  | .exec vsz pttl =>
     match st.reqQ with
     | [] => st
     | (k, c) :: rest =>
-      { st with reqQ := rest, respQ := st.respQ ++ [.reply k c (st.ver k) vsz raw], tracked := upd st.tracked k true }
+      { st with reqQ := rest, respQ := st.respQ ++ [.reply k c (st.ver k) vsz pttl], tracked := upd st.tracked k true }
   | .execFail err =>
     match st.reqQ with
     | [] => st
@@ -97,10 +98,10 @@ def step (st : St) : Ev → St
     if st.store.closed then { st with ver := fun k => st.ver k + 1 }
     else { st with ver := fun k => st.ver k + 1, respQ := st.respQ ++ [.pushAll fun k => st.ver k + 1],
                    tracked := fun _ => false }
-  | .deliver =>
+  | .deliver now =>
     match st.respQ with
     | [] => st
-    | m :: rest => handle { st with respQ := rest } m
+    | m :: rest => handle { st with respQ := rest } now m
   | .disconnect err =>
     { st with store := Lru.close st.store err, reqQ := [], respQ := [], tracked := fun _ => false }
 
